@@ -45,7 +45,8 @@ class Build:
             pkdir = os.path.join(REPO, 'gameboy') if pk == '.' else os.path.join(REPO, 'gameboy', pk)
             pkname = 'gameboy' if pk == '.' else os.path.basename(pk)
             hdir = os.path.join(VERIF, 'harness', 'gameboy' if pk == '.' else pk)
-            files = [f for f in sorted(glob.glob(os.path.join(hdir, '*.go'))) if os.path.basename(f) not in exclude]
+            files = [f for f in sorted(glob.glob(os.path.join(hdir, '*.go')))
+                     if os.path.basename(f) not in exclude and ('%s/%s' % (os.path.basename(hdir), os.path.basename(f))) not in exclude]
             if extra_harness and pk in extra_harness:
                 files += extra_harness[pk]
             ents = []
@@ -66,6 +67,8 @@ class Build:
         for ef in sorted(glob.glob(os.path.join(VERIF, 'harness', '*', 'export.go'))):
             pk = os.path.basename(os.path.dirname(ef))
             if pk in self.pkgs or (pk == 'gameboy' and '.' in self.pkgs):
+                continue
+            if (pk + '/export.go') in exclude:
                 continue
             pkdir = os.path.join(REPO, 'gameboy') if pk == 'gameboy' else os.path.join(REPO, 'gameboy', pk)
             if any(os.path.dirname(v) == pkdir for v in (extra_overlay or {})):
